@@ -50,34 +50,34 @@ func paddingFnName(p ss2022.PaddingPolicy) string {
 }
 
 type tcplObs struct {
-	Network, Address, PMTUD                    string
-	FastOpen, FastOpenFallback, ReusePort      bool
-	FastOpenBacklog, DeferAccept, UserTimeout  int
-	TrafficClass                               int
-	EffWait                                    string // does the relay wait for the initial payload
-	EffWaitTimeout, EffWaitBuf                 string
+	Network, Address, PMTUD                   string
+	FastOpen, FastOpenFallback, ReusePort     bool
+	FastOpenBacklog, DeferAccept, UserTimeout int
+	TrafficClass                              int
+	EffWait                                   string // does the relay wait for the initial payload
+	EffWaitTimeout, EffWaitBuf                string
 }
 
 type udplObs struct {
-	Network, Address, PMTUD               string
-	ReusePort                             bool
-	TrafficClass                          int
-	RelayBatch, RecvBatch, SendCap        int
-	EffNATTimeout                         string
+	Network, Address, PMTUD                 string
+	ReusePort                               bool
+	TrafficClass                            int
+	RelayBatch, RecvBatch, SendCap          int
+	EffNATTimeout                           string
 	EffRelayBatch, EffRecvBatch, EffSendCap string
 }
 
 type srvObs struct {
-	Name, Protocol                         string
+	Name, Protocol                       string
 	RejectFn, RejectName, PadFn, PadName string
-	TCP                                    []tcplObs
-	UDP                                    []udplObs
-	MTU                                    int
-	Tunnel                                 string
-	TargetOnly                             bool
-	Segmented                              bool
-	UPSK                                   bool
-	Fallback                               string
+	TCP                                  []tcplObs
+	UDP                                  []udplObs
+	MTU                                  int
+	Tunnel                               string
+	TargetOnly                           bool
+	Segmented                            bool
+	UPSK                                 bool
+	Fallback                             string
 }
 
 type cliObs struct {
